@@ -117,6 +117,9 @@ def run(prog, rep):
     rep.attempt(PR.tdftype_primitives, prog, rep)
     rep.attempt(PR.string_codec, prog, rep)
     rep.attempt(PR.date_codec, prog, rep)
+    # comments / labels reach the file unaltered only if the string writer refuses what does not fit instead of cutting it
+    from .c13 import string_write_rules
+    rep.attempt(string_write_rules, prog, rep)
     rep.trusted += ["the reference table /verif/sa/reference_layout.py (validated against the BTS capture by the thorough tier's struct parser)"]
     rep.not_decided += ["golden digests of the decoded capture (an execution)", "value conventions BTS software expects beyond layout"]
     for a in cd.assumptions:
